@@ -305,3 +305,10 @@ func IteInt(c bool, a, b int) int {
 	}
 	return b
 }
+
+// ObserveGlobal is Observe with a group that is shared by all paths of the
+// harness (not keyed by the input decisions): used to compare the results of
+// different call histories for the same final call.
+func ObserveGlobal(group, digest string) {
+	events = append(events, Event{Kind: "observe", Label: "global:" + group, Detail: digest})
+}
